@@ -504,6 +504,50 @@ def lean_requests(case, trace, pre=False):
     return reqs
 
 
+def lean_trace(case, trace):
+    """the observable trace (no environment input) in the wire form of `Model/EvaluatorTrace.lean`"""
+    steps = []
+    for op, obs in zip(case["ops"], trace):
+        k, out = op["op"], obs["out"]
+        if k == "submit":
+            call = {"op": "submit", "cfgs": [_cfg_wire(c) for c in op["cfgs"]]}
+        elif k == "gather":
+            call = {"op": "gather", "all": op["all"], "k": op["k"]}
+        else:
+            call = {"op": k}
+        if out["kind"] == "jobs":
+            res = {"kind": "jobs", "jobs": out["jobs"]}
+        elif out["kind"] == "rows":
+            res = {"kind": "rows", "ids": [j["id"] for j in out["jobs"]]}
+        elif out["kind"] == "unit":
+            res = {"kind": "unit"}
+        elif out["kind"] == "error":
+            res = {"kind": "error", "err": out["err"] if out["err"] in ("noLoop", "noJobs") else "other"}
+        else:  # gather returned (local, other): jobs this evaluator never submitted
+            res = {"kind": "error", "err": "other"}
+        steps.append({"call": call, "res": res, "num_submitted": obs["num_submitted"], "num_gathered": obs["num_gathered"],
+                      "jobs_done": obs["jobs_done"]})
+    return {"op": "check", "hpo": case["hpo"], "trace": steps}
+
+
+def lean_failure(case, trace, d):
+    """(fingerprint, clause, call index, detail) from the verified checker `checkTrace` run on the
+    implementation's trace, or None when the trace satisfies TraceSpec"""
+    rep = d.ask(lean_trace(case, trace))
+    if rep["spec"]:
+        return None
+    i, clause = rep["first_bad"], rep["clause"]
+    detail = f"checkTrace = false: clause {clause} at call {i}"
+    out = trace[i]["out"]
+    if out["kind"] == "error":
+        detail = out["msg"]
+        if clause == "no-exception":
+            clause += ":" + out["msg"].split(":")[0]
+    elif out["kind"] == "jobs+other":
+        clause = "foreign-jobs"
+    return fingerprint(case, clause, i), clause, i, detail
+
+
 def _strip(out):
     return {k: v for k, v in out.items() if not k.startswith("_") and k != "msg"}
 
@@ -632,23 +676,29 @@ def check_case(ck, d, case, spy, vt, from_corpus=False):
     complete = len(trace) == len(case["ops"])
     _stats(ck, case, trace)
     ck.case({k: case[k] for k in ("backend", "hpo", "workers", "ops")}, nontrivial=_nontrivial(case, trace))
-    # L3 first: a failing property is reported as such, with a shrunk replay
-    ff = _first_failure(case, trace)
+    # L3: the verified checker (theorem C01_checker) on the implementation's trace; the Python statement
+    # of the property is kept as a cross-check
+    ff_py = _first_failure(case, trace)
+    ff = lean_failure(case, trace, d)
+    if (ff is None) != (ff_py is None) or (ff and ff_py and ff[2] != ff_py[2]):
+        ck.mismatch(case, {"what": "oracle disagreement: Lean checkTrace vs. the Python statement of the property",
+                           "lean": ff, "python": ff_py})
     if ff:
         fp, clause, i, detail = ff
+        if ff_py and ff_py[2] == i and detail.startswith("checkTrace"):
+            detail += " (" + str(ff_py[3]) + ")"
         small = case
         seen = ck.extra_cov.setdefault("_fails", {})
         seen[clause] = seen.get(clause, 0) + 1
         # shrink the first few failing scripts of every clause; later ones keep their own fingerprint
-        if case["backend"] == "serial" and not from_corpus and seen[clause] <= 8:
-            small = shrink(case, spy, vt, fp)
-            ok, ff2 = _fails_same(small, spy, vt, fp)
-            if ok:
-                fp, clause, i, detail = ff2
-            else:
-                small = case
+        if case["backend"] == "serial" and not from_corpus and seen[clause] <= 8 and ff_py and ff_py[0] == fp:
+            cand = shrink(case, spy, vt, fp)
+            tr2 = drive(cand, spy, vt)
+            ff2 = lean_failure(cand, tr2, d)
+            if ff2 and ff2[0] == fp:
+                small, (fp, clause, i, detail) = cand, ff2
         ck.fail(fp, f"{clause} at call {i} ({small['ops'][i]['op']}): {detail}", small,
-                {"clause": clause, "call_index": i, "detail": detail})
+                {"clause": clause, "call_index": i, "detail": detail, "oracle": "Lean checkTrace (C01_checker)"})
     bad = ff
     # L2
     reps = d.ask_all(lean_requests(case, trace))
